@@ -63,11 +63,49 @@ func c14Fixed() [][]byte {
 		"4d13636f6d2e63617563686f2e746573742e43617205636f6c6f720a617175616d6172696e655a",
 		"4300905a", "4f90", "5190", "51ff", "60", "6f", "4fc8ff", "7fffffffff", "58497fffffff", "56004990", "5500", "4d00", "4d90", "4300" + "497fffffff",
 		"71065b696e74333279" + "5191", // typed int list whose element is a list containing itself
+		"71055b74726565795191",                     // "[tree" (type Tree []Tree) holding a list that contains itself
+		"4d016a0161480173" + "51915a5a",            // "j" (type JMap map[string]JMap) holding a map that contains itself
+		"43046e6f64659201610173" + "60" + "90" + "5190", // object whose string field is a ref to itself
 		"7a7a5190", "5751905a", "4851905190" + "5a", "7851" + "90", "79795191", "48790151915a",
 		"4a0000000000000000", "4bffffffff", "4400", "5f", "52ffff", "53ffff61", "42ffff", "62ffff00", "33ff", "2f",
 	} {
 		b, _ := hex.DecodeString(h)
 		out = append(out, b)
+	}
+	// amplification patterns: cost must follow the input, not what it declares or re-uses
+	{
+		var b []byte
+		for i := 0; i < 21845; i++ { // nested fixed lists, each declaring 1024 elements
+			b = append(b, 0x58, 0xcc, 0x00)
+		}
+		out = append(out, b)
+		b = append([]byte{}, 'V', 5, '[', '[', 'i', 'n', 't', 'I', 0, 0, 0x20, 0x01, 0x58, 'I', 0, 0, 0x40, 0)
+		for i := 0; i < 16384; i++ {
+			b = append(b, 0x90)
+		}
+		for i := 0; i < 8192; i++ { // 8192 references to one 16384-element list
+			b = append(b, 0x51, 0x91)
+		}
+		out = append(out, b)
+		b = append([]byte{}, 0x57, 0x58, 'I', 0, 0, 0x40, 0)
+		for i := 0; i < 16384; i++ {
+			b = append(b, 0x90)
+		}
+		for i := 0; i < 16000; i++ { // the same in an untyped list
+			b = append(b, 0x51, 0x91)
+		}
+		out = append(out, append(b, 'Z'))
+		// a map whose values all refer to one big map; class definition with a huge count
+		b = append([]byte{}, 'H', 0x01, 'a', 'H')
+		for i := 0; i < 4000; i++ {
+			b = append(b, 0xd4, byte(i>>8), byte(i), 0x90)
+		}
+		b = append(b, 'Z')
+		for i := 0; i < 8000; i++ {
+			b = append(b, 0xd5, byte(i>>8), byte(i), 0x51, 0x91)
+		}
+		out = append(out, append(b, 'Z'))
+		out = append(out, []byte{'C', 4, 'b', 'e', 'a', 'n', 'I', 0, 0x10, 0, 0})
 	}
 	// nesting as deep as the input is long: cost must stay proportional to the input
 	for _, tag := range []byte{0x57, 'H', 0x79, 0x55, 'M'} {
